@@ -100,6 +100,19 @@ func NewWorld(prop string, rf int, size int64, r *vk.Rand, res *vk.Result, ipA, 
 func (w *World) Close() {
 	for _, f := range w.Order {
 		f.stopHTTP()
+		// let go of what still hangs on this world: the monitor goroutine of every attachment (and with it the
+		// controller's monitoring goroutine, which holds the backend) ends when its close channel is signalled;
+		// the per-snapshot copies are the bulk of a fake's memory
+		f.mu.Lock()
+		c := f.conn
+		f.SnapData = map[string][]byte{}
+		f.mu.Unlock()
+		if c != nil {
+			select {
+			case c.closeChan <- struct{}{}:
+			default:
+			}
+		}
 	}
 }
 
